@@ -291,6 +291,30 @@ func runC02(o *opts) (*summary, error) {
 				})
 			}
 		}
+		// (3b) refused and well-formed replies interleaved at random (whatever an aborted decode leaves behind must not
+		// show in the next reply's interpretation)
+		for i := 0; i < n; i++ {
+			cls := []string{"valid", "out", "valid", "random", "valid", "zero"}[rng.Intn(6)]
+			run(op, serialOf(), "interleaved-"+cls, func(l layout, req []byte) []byte {
+				bad := -1
+				if cls != "valid" && len(l.Fields) > 1 {
+					bad = 1 + rng.Intn(len(l.Fields)-1)
+				}
+				m := l.message(rng, som(op), req[4:8], "valid", func(x field) string {
+					if bad >= 0 && x.Name == l.Fields[bad].Name && x.Name != "SerialNumber" {
+						return cls
+					}
+					return ""
+				})
+				if op == "GetCardByID" {
+					copy(m[8:12], req[8:12])
+				}
+				if op == "GetTimeProfile" {
+					m[8] = req[8]
+				}
+				return m
+			})
+		}
 		// (4) random payloads
 		for i := 0; i < n/2; i++ {
 			run(op, serialOf(), "random", func(l layout, req []byte) []byte {
